@@ -2,19 +2,30 @@
 C14 — Type descriptors describe query types faithfully and uniquely.
 
 Property theorems about `EdbVerif.Desc` (`Model/Desc.lean`), the model of the
-descriptor encoder building blocks, the decoder `parse` and the id strings of
+descriptor encoder building blocks, of two decoders and of the id strings of
 `edb/server/compiler/sertypes.py`.  Helper lemmas: `Lemmas/DescWire.lean`
 (one block), `Lemmas/DescEnc.lean` (the stream, the position table,
-de-duplication), `Lemmas/DescId.lean` (id strings).
+de-duplication, annotations), `Lemmas/DescId.lean` (id strings).
 
 Reading guide.  `Desc` = a descriptor tree (node = kind, id, optional
 name/schema_defined, flat payload; `pre` / `post` children = described before /
-after the encoder looks the id up in `uuid_to_pos`).  `encode p d` = the bytes
-`describe()` returns for protocol family `p` (`v1` < 2.0 ≤ `v2`); `decode p` =
-`parse(bytes, protocol_version)`.  `WFDesc p d` = every node exists in `p` and
-fits the packers (`nodes`, `fits`), there is no `SQL_ROW` node (`decodable`;
-the real decoder has no arm for it) and ids are faithful inside `d`
-(`faithful`: equal ids ⇒ equal sub-descriptors).
+after the encoder looks the id up in `uuid_to_pos`).
+`encodeA p dn d` = the bytes `describe()` returns for protocol family `p`
+(`v1` < 2.0 ≤ `v2`): descriptor blocks, then the type-name annotation blocks
+(`dn = some f`: `inline_typenames` with `f id` = display name; `encode p d` =
+`encodeA p none d`).
+
+TWO decoders:
+* `decodeDoc p`  — a CLIENT following the documented wire format: every kind incl.
+  `SQL_ROW`, annotation blocks (tag ≥ 0x80: id, text) recorded.  This is the
+  decoder the property speaks about: `C14_roundtrip`.
+* `decodeReal p` — the model of `sertypes.parse`, the server-internal decoder
+  (no arm for `SQL_ROW` nor for the `0xff` annotation): `C14_roundtrip_real`,
+  `C14_anno_rejected`; it is what the differential run compares with the real code.
+
+`WFDesc p d` = every node exists in `p` and fits the packers (`nodes`, `fits`)
+and ids are faithful inside `d` (`faithful`: equal ids ⇒ equal sub-descriptors).
+`Decodable d` = no `SQL_ROW` node.
 -/
 import EdbVerif.Lemmas.DescEnc
 import EdbVerif.Lemmas.DescId
@@ -22,96 +33,114 @@ import EdbVerif.Lemmas.DescId
 namespace EdbVerif.C14
 open EdbVerif.Desc
 
-/-- Decoding the encoded descriptor gives back the descriptor, for both
-    protocol families. -/
-theorem C14_roundtrip (p : Proto) (d : Desc) (h : WFDesc p d) : decode p (encode p d) = some d :=
-  Desc.roundtrip p d h
+/-- A client following the documented format decodes every stream the encoder
+    emits — both protocol families, with or without `inline_typenames`, every
+    descriptor kind — to the descriptor and to exactly the emitted (id, type name)
+    annotations. -/
+theorem C14_roundtrip (p : Proto) (dn : Option (Id → Bytes)) (d : Desc) (h : WFDesc p d)
+    (hdn : ∀ f, dn = some f → ∀ i, (f i).length < 4294967296) :
+    decodeDoc p (encodeA p dn d) = some (d, (enc p dn {} d).ann) :=
+  Desc.roundtrip_doc p dn d h hdn
+
+/-- Every annotation the encoder emits names a sub-descriptor of `d` that is a
+    derived scalar or an enum below protocol 2.0, with its display name; without
+    `inline_typenames` there is none. -/
+theorem C14_annotations (p : Proto) (f : Id → Bytes) (d : Desc) :
+    (∀ e ∈ (enc p (some f) {} d).ann,
+        ∃ u ∈ subs d, e = (u.id, f u.id) ∧ annotated p u.hdr.kind = true) ∧
+    (enc p none {} d).ann = [] := by
+  refine ⟨fun e he => ?_, Desc.enc_ann_none p d⟩
+  rcases Desc.enc_ann p f d {} e he with h | h
+  · cases h
+  · exact h
+
+/-- The model of the REAL `sertypes.parse` gives back the descriptor on the streams
+    it is specified for (no annotations, no `SQL_ROW`). -/
+theorem C14_roundtrip_real (p : Proto) (d : Desc) (h : WFDesc p d) (hd : Decodable d) :
+    decodeReal p (encode p d) = some d :=
+  Desc.roundtrip p d h hd
 
 /-- One block is read back exactly and the reader stops exactly at its end
-    (whatever follows): consecutive descriptors do not overlap. -/
-theorem C14_prefix_block (p : Proto) (f : Flat) (rest : Bytes)
-    (hok : hdrOK p f.h f.pre.length f.post.length = true) (hsql : ∀ n, f.h.kind ≠ .sqlRow n)
+    (whatever follows): consecutive descriptors do not overlap.  Both decoders. -/
+theorem C14_prefix_block (m : Mode) (p : Proto) (f : Flat) (rest : Bytes)
+    (hok : hdrOK p f.h f.pre.length f.post.length = true)
+    (hsql : m = .doc ∨ ∀ n, f.h.kind ≠ .sqlRow n)
     (hpre : ∀ r ∈ f.pre, r < 65536) (hpost : ∀ r ∈ f.post, r < 65536) :
-    parseFlat p (block p f ++ rest) = some (some (f, chkOf p f), rest) :=
-  Desc.parseFlat_block p f rest hok hsql hpre hpost
+    parseFlat m p (block p f ++ rest) = some (.desc f (chkOf p f), rest) :=
+  Desc.parseFlat_block m p f rest hok hsql hpre hpost
 
 /-- Decoding consumes exactly the encoded bytes: with anything appended, the
     decoder is, after `encode p d`, in the state "all of `d`'s descriptors
     known, `d` last" and continues with the appended bytes. -/
-theorem C14_prefix (p : Proto) (d : Desc) (h : WFDesc p d) :
-    ∃ cl, decodeAll p [] (encode p d) = some cl ∧ cl.getLast? = some d ∧
-      ∀ rest, decodeAll p [] (encode p d ++ rest) = decodeAll p cl rest :=
-  ⟨_, Desc.decode_encode p d h⟩
+theorem C14_prefix (m : Mode) (p : Proto) (d : Desc) (h : WFDesc p d) (hs : SqlOK m d) :
+    ∃ cl, decodeAll m p {} (encode p d) = some ⟨cl, []⟩ ∧ cl.getLast? = some d ∧
+      ∀ rest, decodeAll m p {} (encode p d ++ rest) = decodeAll m p ⟨cl, []⟩ rest :=
+  Desc.decode_prefix m p d h hs
 
 /-- De-duplication: the position table (`uuid_to_pos`) lists every distinct
     sub-descriptor id exactly once, the stream holds exactly one block per
     table entry, and block `k` decodes to the sub-descriptor with id `tbl[k]`
     (so every reference to a repeated sub-descriptor points at the one block). -/
-theorem C14_dedupe (p : Proto) (d : Desc) (h : WFDesc p d) :
-    (enc p {} d).tbl.Nodup ∧ (∀ i, i ∈ (enc p {} d).tbl ↔ ∃ u ∈ subs d, u.id = i) ∧
-    ∃ cl, decodeAll p [] (encode p d) = some cl ∧ cl.map Desc.id = (enc p {} d).tbl ∧
-      ∀ u ∈ subs d, cl[pos (enc p {} d).tbl u.id]? = some u :=
-  Desc.dedupe_full p d h
+theorem C14_dedupe (m : Mode) (p : Proto) (d : Desc) (h : WFDesc p d) (hs : SqlOK m d) :
+    (enc p none {} d).tbl.Nodup ∧ (∀ i, i ∈ (enc p none {} d).tbl ↔ ∃ u ∈ subs d, u.id = i) ∧
+    ∃ cl, decodeAll m p {} (encode p d) = some ⟨cl, []⟩ ∧ cl.map Desc.id = (enc p none {} d).tbl ∧
+      ∀ u ∈ subs d, cl[pos (enc p none {} d).tbl u.id]? = some u :=
+  Desc.dedupe_full m p d h hs
 
 /-- Described into an existing context (`Context.derive()`, state descriptors):
     if the stream so far decodes to the table, it still does afterwards. -/
-theorem C14_context (c : Id → Desc) (p : Proto) (d : Desc) (s : St) (hinv : Inv c p s)
-    (hc : ∀ u ∈ subs d, c u.id = u) (hn : nodesOK p d = true) (hd : Decodable d)
-    (hfit : (enc p s d).tbl.length ≤ 65536) : Inv c p (enc p s d) ∧ d.id ∈ (enc p s d).tbl :=
-  ⟨Desc.enc_inv c p d s hinv hc hn hd hfit, Desc.enc_mem p d s⟩
+theorem C14_context (m : Mode) (c : Id → Desc) (p : Proto) (dn : Option (Id → Bytes)) (d : Desc) (s : St)
+    (hinv : Inv m c p s) (hc : ∀ u ∈ subs d, c u.id = u) (hn : nodesOK p d = true)
+    (hd : ∀ u ∈ subs d, m = .doc ∨ ∀ n, u.hdr.kind ≠ .sqlRow n)
+    (hfit : (enc p dn s d).tbl.length ≤ 65536) :
+    Inv m c p (enc p dn s d) ∧ d.id ∈ (enc p dn s d).tbl :=
+  ⟨Desc.enc_inv m c p d s hinv hc hn hd hfit, Desc.enc_mem p d s⟩
 
-/-- The string hashed into a content-derived id determines the arguments of the
-    id function (up to "empty list = absent") as long as no id text / name /
-    cardinality character contains `:` or NUL (`NoSep`) and the optional lists
-    have the shape the callers give them. -/
+/-- (after fix c2beb91) The string hashed into a content-derived id determines the
+    arguments of the id function (up to "empty list = absent") for ARBITRARY element
+    names — they may contain `:` and `\` — as long as names, type name and id texts
+    contain no NUL (the part separator; the tokenizer rejects U+0000, checked by
+    the harness), id texts are non-empty and `:`-free, cardinality characters are
+    neither NUL nor `:`, and the optional lists have the shape the callers give them. -/
 theorem C14_id_inj (k₁ k₂ : IdKey) (hfn : k₁.fn = k₂.fn) (h₁ : k₁.NoSep) (h₂ : k₂.NoSep)
     (c₁ : k₁.callerShaped) (c₂ : k₂.callerShaped) (he : idPreimage k₁ = idPreimage k₂) :
     k₁.norm = k₂.norm :=
   Desc.id_inj k₁ k₂ hfn h₁ h₂ c₁ c₂ he
 
-/-- Without `NoSep` the id strings collide: the named tuples
-    ``(`a:b` := int64, c := int64)`` and ``(a := int64, `b:c` := int64)``, and
-    two object shapes with those element names, share their id string. -/
+/-- What fix c2beb91 repaired: with the PRE-fix strings (`idPreimageBuggy`: names
+    joined with `:` as they are) the named tuples ``(`a:b` := int64, c := int64)`` and
+    ``(a := int64, `b:c` := int64)``, and two object shapes with those element
+    names, share their id string; with the fixed strings they do not. -/
 theorem C14_id_collision :
-    (∃ k₁ k₂ : IdKey, k₁.fn = 0 ∧ k₂.fn = 0 ∧ k₁.callerShaped ∧ k₂.callerShaped ∧
-      idPreimage k₁ = idPreimage k₂ ∧ k₁.norm ≠ k₂.norm) ∧
-    (∃ k₁ k₂ : IdKey, k₁.fn = 1 ∧ k₂.fn = 1 ∧ idPreimage k₁ = idPreimage k₂ ∧ k₁.norm ≠ k₂.norm) :=
-  ⟨⟨collA, collB, rfl, rfl, coll_collision.2.2.1, coll_collision.2.2.2, coll_collision.1,
-     coll_collision.2.1⟩,
-   ⟨shapeA, shapeB, rfl, rfl, shape_collision.1, shape_collision.2⟩⟩
+    (∃ k₁ k₂ : IdKey, k₁.fn = 0 ∧ k₂.fn = 0 ∧ k₁.NoSep ∧ k₂.NoSep ∧ k₁.callerShaped ∧ k₂.callerShaped ∧
+      idPreimageBuggy k₁ = idPreimageBuggy k₂ ∧ k₁.norm ≠ k₂.norm ∧ idPreimage k₁ ≠ idPreimage k₂) ∧
+    (∃ k₁ k₂ : IdKey, k₁.fn = 1 ∧ k₂.fn = 1 ∧ idPreimageBuggy k₁ = idPreimageBuggy k₂ ∧
+      k₁.norm ≠ k₂.norm ∧ idPreimage k₁ ≠ idPreimage k₂) :=
+  ⟨⟨collA, collB, rfl, rfl, collA_noSep, collB_noSep, coll_collision.2.2.2.1, coll_collision.2.2.2.2,
+     coll_collision.1, coll_collision.2.1, coll_collision.2.2.1⟩,
+   ⟨shapeA, shapeB, rfl, rfl, shape_collision.1, shape_collision.2.1, shape_collision.2.2⟩⟩
 
-/-- The encoder's own type-name annotations (`inline_typenames`, protocol < 2.0:
-    tag `0xff`, id, text, appended after the descriptors) are NOT accepted by the
-    decoder: `parse` has no arm for `ANNO_TYPENAME`.  (Replayed on the real code
-    by the harness, key `decoder-rejects-inline-typename-annotation`.) -/
-theorem C14_anno_rejected (d : Desc) (h : WFDesc .v1 d) (id text : Bytes) :
-    decode .v1 (encode .v1 d ++ annoBlock .v1 id text) = none :=
-  Desc.anno_rejected d h id text
+/-- Observation about the server-internal decoder (not part of the property):
+    the model of `sertypes.parse` rejects what `describe(inline_typenames=True)`
+    emits below protocol 2.0 as soon as it contains one annotation block. -/
+theorem C14_anno_rejected (f : Id → Bytes) (d : Desc) (h : WFDesc .v1 d) (hd : Decodable d)
+    (hne : (enc .v1 (some f) {} d).ann ≠ []) :
+    decodeReal .v1 (encodeA .v1 (some f) d) = none :=
+  Desc.anno_rejected f d h hd hne
 
 /-! ### Non-vacuity -/
 
 /-- `tuple<a: int64, b: str, c: int64>` (protocol ≥ 2.0) is well formed … -/
-example : WFDesc .v2 exTuple := exTuple_wf
-/-- … round-trips … -/
-example : decode .v2 (encode .v2 exTuple) = some exTuple := C14_roundtrip _ _ exTuple_wf
+example : WFDesc .v2 exTuple ∧ Decodable exTuple := ⟨exTuple_wf, exTuple_decodable⟩
+/-- … round-trips through both decoders … -/
+example : decodeDoc .v2 (encodeA .v2 none exTuple) = some (exTuple, (enc .v2 none {} exTuple).ann) :=
+  C14_roundtrip _ _ _ exTuple_wf (fun _ h => by cases h)
+example : decodeReal .v2 (encode .v2 exTuple) = some exTuple :=
+  C14_roundtrip_real _ _ exTuple_wf exTuple_decodable
 /-- … and its repeated `int64` is emitted once: 3 blocks for 4 nodes. -/
-example : (enc .v2 {} exTuple).tbl.length = 3 ∧ (subs exTuple).length = 4 := by decide
-
-/-- a key meeting `NoSep` and `callerShaped`: `(a := int64, b := int64)` -/
-example : (IdKey.coll asciiTuple [int64Str, int64Str] (some [[97], [98]])).NoSep ∧
-    (IdKey.coll asciiTuple [int64Str, int64Str] (some [[97], [98]])).callerShaped := by
-  refine ⟨⟨by decide, ?_, ?_⟩, ?_⟩
-  · intro s hs
-    simp only [List.mem_cons, List.not_mem_nil, or_false, or_self] at hs
-    subst hs
-    exact ⟨⟨by decide, by decide⟩, by decide⟩
-  · intro ns h n hn
-    simp only [Option.some.injEq] at h
-    subst h
-    simp only [List.mem_cons, List.not_mem_nil, or_false] at hn
-    rcases hn with rfl | rfl <;> exact ⟨by decide, by decide⟩
-  · intro ns h
-    simp only [Option.some.injEq] at h
-    subst h; rfl
+example : (enc .v2 none {} exTuple).tbl.length = 3 ∧ (subs exTuple).length = 4 := by decide
+/-- a < 2.0 tree with an annotation: a derived scalar over `int64` -/
+example : WFDesc .v1 exDerived ∧ Decodable exDerived ∧
+    (enc .v1 (some fun _ => [109]) {} exDerived).ann ≠ [] := ⟨exDerived_wf, exDerived_decodable, by decide⟩
 
 end EdbVerif.C14
